@@ -374,3 +374,31 @@ def assigned_names(node: ast.AST) -> set[str]:
 
     rec(node)
     return out
+
+
+def concat_parts(expr: ast.AST) -> list[str]:
+    """Flatten string building (f-strings, ``+``, ``%``-free) into parts: constants merged, other parts unparsed."""
+    parts: list[tuple[str, str]] = []
+
+    def rec(e: ast.AST) -> None:
+        if isinstance(e, ast.JoinedStr):
+            for v in e.values:
+                rec(v)
+        elif isinstance(e, ast.FormattedValue):
+            if e.format_spec is None and e.conversion == -1:
+                rec(e.value)
+            else:
+                parts.append(("e", ast.unparse(e)))
+        elif isinstance(e, ast.BinOp) and isinstance(e.op, ast.Add):
+            rec(e.left)
+            rec(e.right)
+        elif isinstance(e, ast.Constant) and isinstance(e.value, str):
+            if parts and parts[-1][0] == "c":
+                parts[-1] = ("c", parts[-1][1] + e.value)
+            else:
+                parts.append(("c", e.value))
+        else:
+            parts.append(("e", ast.unparse(e)))
+
+    rec(expr)
+    return [repr(v) if k == "c" else v for k, v in parts if not (k == "c" and v == "")]
